@@ -120,6 +120,8 @@ def main():
         do_import(a[1], int(a[2])); return
     if a[0] == "import2":  # round 2: /tmp/wt/<ID>/out2/patchN -> seeded/<ID>-(N+2)
         do_import(a[1], int(a[2]), "out2", 2); return
+    if a[0] == "import4":  # round 4: /tmp/wt/<ID>/out4/patchN -> seeded/<ID>-(N+6)
+        do_import(a[1], int(a[2]), "out4", 6); return
     if a[0] == "import3":  # round 3: /tmp/wt/<ID>/out3/patchN -> seeded/<ID>-(N+4)
         do_import(a[1], int(a[2]), "out3", 4); return
     if a[0] == "reverify":
